@@ -395,19 +395,32 @@ func (c *Ctx) checkNamedFormOnlyForOwnName(r *Report, rule string) {
 				return // the key=value form (or not a binding line)
 			}
 			n++
-			compared := false
-			for _, cc := range controlling(call.Block()) {
-				bin, ok := cc.Cond.(*ssa.BinOp)
-				if !ok || !((bin.Op == token.EQL && cc.Edge == 0) || (bin.Op == token.NEQ && cc.Edge == 1)) {
-					continue
-				}
-				bx, okx := bin.X.Type().Underlying().(*types.Basic)
-				by, oky := bin.Y.Type().Underlying().(*types.Basic)
-				if okx && oky && bx.Kind() == types.String && by.Kind() == types.String {
-					if _, isK := bin.X.(*ssa.Const); !isK {
-						if _, isK := bin.Y.(*ssa.Const); !isK {
-							compared = true
+			namesCompared := func(b *ssa.BasicBlock) bool {
+				for _, cc := range controlling(b) {
+					bin, ok := cc.Cond.(*ssa.BinOp)
+					if !ok || !((bin.Op == token.EQL && cc.Edge == 0) || (bin.Op == token.NEQ && cc.Edge == 1)) {
+						continue
+					}
+					bx, okx := bin.X.Type().Underlying().(*types.Basic)
+					by, oky := bin.Y.Type().Underlying().(*types.Basic)
+					if okx && oky && bx.Kind() == types.String && by.Kind() == types.String {
+						if _, isK := bin.X.(*ssa.Const); !isK {
+							if _, isK := bin.Y.(*ssa.Const); !isK {
+								return true
+							}
 						}
+					}
+				}
+				return false
+			}
+			compared := namesCompared(call.Block())
+			// the write sits in a helper that only prints the line it is handed: the comparison is made where it is called
+			if !compared && fn != entry {
+				sites := c.staticCallSites(fn)
+				compared = len(sites) > 0
+				for _, site := range sites {
+					if !namesCompared(site.Block()) {
+						compared = false
 					}
 				}
 			}
